@@ -299,7 +299,7 @@ def out_edges_harness(ctx):
 
 
 # ------------------------------------------------------------------------------------------------ bounded
-def build(a_internal, b_internal, b_is_data, with_functions):
+def build(a_internal, b_internal, b_is_data, with_functions, b_alias=False):
     ir, m = create_test_module(gtirb.Module.FileFormat.ELF, gtirb.Module.ISA.X64)
     _auxdata.binary_type.set(m, ["DYN"])
     _, bi = add_text_section(m, address=0x1000)
@@ -316,7 +316,8 @@ def build(a_internal, b_internal, b_is_data, with_functions):
     dB = add_data_block(dbi, b"\x00" * 8)
     pa, pb = add_proxy_block(m), add_proxy_block(m)
     A_ = add_symbol(m, "A", fa if a_internal else pa)
-    B_ = add_symbol(m, "B", (dB if b_is_data else fb) if b_internal else pb)
+    # b_alias: B is another name for the very block / proxy that A designates (e.g. __GI_helper and helper)
+    B_ = add_symbol(m, "B", A_.referent if b_alias else ((dB if b_is_data else fb) if b_internal else pb))
     K_ = add_symbol(m, "K", fk)
     X_ = add_symbol(m, "X", tail)
     smain = add_symbol(m, "main", main)
@@ -359,16 +360,19 @@ def bounded(tier, seed):
         logging.getLogger("gtirb_rewriting").setLevel(logging.CRITICAL)
         br = BResult()
         br.bound = ("x86-64 ELF PIE module: A used by a call, a jump, a lea, a data word (+16), .cfi_personality and symbolForwarding; bystander K; "
-                    "A internal/external x B internal code / internal data / external x with/without function info; through RewritingContext.apply(); plus the chain K->A, A->B in both registration orders")
+                    "A internal/external x B internal code / internal data / external / an alias of A (same referent) x with/without function info; through RewritingContext.apply(); plus the chain K->A, A->B in both registration orders")
         br.clauses = ["C18/no-use-of-A-remains-and-each-now-refers-to-B-with-the-same-addend", "C18/attributes-converted-per-the-ABI-rule",
                       "C18/every-other-entry-untouched", "C18/branch-and-call-edges-lead-to-B", "C18/return-edges-follow-the-calls",
                       "C18/retargeting-control-flow-into-data-is-refused", "C18/chains-are-simultaneous-substitutions"]
         distinct = set()
-        for a_int, (b_int, b_data), funcs in itertools.product((True, False), ((True, False), (True, True), (False, False)), (False, True)):
-            ir, m, H, fl = build(a_int, b_int, b_data, funcs)
+        for a_int, (b_int, b_data), funcs in itertools.product((True, False), ((True, False), (True, True), (False, False), ("alias", False)), (False, True)):
+            alias = b_int == "alias"
+            if alias:
+                b_int = a_int
+            ir, m, H, fl = build(a_int, b_int, b_data, funcs, alias)
             br.cases += 1
-            distinct.add((a_int, b_int, b_data, funcs))
-            desc = {"A": "internal" if a_int else "external", "B": ("data" if b_data else "code") if b_int else "external", "functions": funcs}
+            distinct.add((a_int, b_int, b_data, funcs, alias))
+            desc = {"A": "internal" if a_int else "external", "B": "another symbol with the same referent as A" if alias else (("data" if b_data else "code") if b_int else "external"), "functions": funcs}
             before_k = [(i.address + k, e.symbol.name, e.offset, sorted(a.name for a in e.attributes)) for i in m.byte_intervals
                         for k, e in i.symbolic_expressions.items() if e.symbol is H["K"]]
             rc = RW.RewritingContext(m, fl)
@@ -417,7 +421,7 @@ def bounded(tier, seed):
             if kt != [H["fk"]]:
                 br.failures.append({"clause": "C18/every-other-entry-untouched", "witness": desc, "detail": "call K edge changed"})
             # return edges follow the calls
-            if funcs and b_int:
+            if funcs and b_int and not alias:
                 rb = {e.target for e in H["fb"].outgoing_edges if e.label.type == gtirb.EdgeType.Return}
                 ra = {e.target for e in H["fa"].outgoing_edges if e.label.type == gtirb.EdgeType.Return} if a_int else set()
                 if H["retsite"] not in rb or H["retsite"] in ra:
